@@ -133,5 +133,12 @@ CLAIMS = {
           'the identifier and literal leaves of its tree must equal the identifier and literal tokens of the crate\'s own scanner on that source (text, offset, each once), brackets must be balanced and the package clause / imports must come first. One violation found this way (`switch a b {}` dropped `a`) was repaired; the earlier `import "a" 42` defect is a fixed entry. Partial proof.',
   'note': 'Balanced consumption as a Hoare-style invariant over all productions is not proved yet.',
  },
+ 'C11': {
+  'category': 'proof',
+  'technique': 'Lean 4 lemmas on the three writers of the comment list (comment loop appends, goback truncates exactly, scanner step neutral) + comment-injection differential with the layout engine\'s own comment list as oracle',
+  'text': 'Proved for every parser state: goback keeps exactly the comments that start before the restored position (goback_comments), the comment loop of next() only appends (commentLoop_appends), a raw scanner step does not touch the list, and a comment token\'s text is the source text at its offset. '
+          'The end-to-end statement File.comments = comments of the source is decided by execution: generated programs and the token lists of all corpus programs are rendered with line and general comments at random gaps up to every gap (including inside re-read type-parameter lists, array lengths with struct literals, interface and struct bodies, after struct fields on the same line), and the returned list must equal the (offset, text) list the layout engine wrote, in order. Partial proof.',
+  'note': 'The invariant comments = comment tokens before the scanner position, through all productions, is not a theorem yet; line_end_comment is covered by correspondence only.',
+ },
 }
 NOT_CLAIMED = {}
